@@ -20,7 +20,7 @@
    complement, shown non-empty by C10_greedy_initial_refuted, and confined to dump 0 by C10_later_dumps_always. *)
 From Coq Require Import ZArith List Bool.
 From KV Require Import Base.Sx Gen.Generated Model.SensorToCat Model.SensorToCatSrc Model.SensorToCatPath
-  Model.SensorToCatTables Proofs.SensorToCatTablesP
+  Model.SensorToCatTables Proofs.SensorToCatTablesP Proofs.SensorToCatMoreP
   Proofs.SensorToCatP Proofs.SensorToCatInitP Proofs.SensorToCatLawsP Proofs.SensorToCatSrcP Proofs.SensorToCatTopP
   Proofs.SensorToCatPathP.
 Import ListNotations.
@@ -111,6 +111,19 @@ Theorem C10_no_greedy_value_at_end : forall ts vals mids P tr init ar, c10_domai
 Proof. exact src_no_greedy_value_at_end. Qed.
 Print Assumptions C10_no_greedy_value_at_end.
 
+(* nothing foreign can appear: every per-dump value is the initial value or a (transformed) sensor value *)
+Theorem C10_values_closed : forall ts vals mids P tr init greedy ar l, c10_domain ts vals mids P ->
+  per_dump_src ts vals mids P tr init greedy ar = Ok l ->
+  Forall (fun v => In v (olist init ++ map (app_tr tr) vals)) l.
+Proof. exact src_values_closed. Qed.
+Print Assumptions C10_values_closed.
+
+(* only relative times matter: shifting sensor timestamps AND dump mid times by the same amount changes nothing *)
+Theorem C10_time_shift : forall c ts vals mids P tr init greedy ar, c10_domain ts vals mids P ->
+  per_dump_src (shiftZ c ts) vals (shiftZ c mids) P tr init greedy ar = per_dump_src ts vals mids P tr init greedy ar.
+Proof. exact src_time_shift. Qed.
+Print Assumptions C10_time_shift.
+
 (* searchsorted layer, with the side the code uses: an event at time t lands in dump k iff end_{k-1} < t <= end_k *)
 Theorem C10_searchsorted_dump : forall a, ssorted a -> forall k lo hi,
   nth_error (combine a (tl a)) k = Some (lo, hi) -> forall t,
@@ -193,7 +206,7 @@ Print Assumptions C10_select_mask.
 (* the categorical / numerical decision of _extract: an explicit `categorical` property wins, otherwise every
    non-float sensor is categorical *)
 Theorem C10_categorical_decision : forall (p : option bool) (is_float : bool),
-  decide_categorical_src p is_float = match p with Some b => b | None => negb is_float end.
+  decide_categorical_src p is_float = spec_categorical p is_float.
 Proof. exact decide_categorical_eq. Qed.
 Print Assumptions C10_categorical_decision.
 
@@ -235,4 +248,6 @@ Definition C10_example_cache_path := ex_usable.
 Definition C10_example_dummy := ex_dummy.
 Definition C10_example_decision := ex_decision.
 Definition C10_example_select := ex_select.
+Definition C10_example_time_shift := ex_time_shift.
+Definition C10_example_values_closed := ex_values_closed.
 Print Assumptions C10_example_cache_path.
